@@ -151,6 +151,7 @@ class AGraph(Equation):
             if len(constants) > 0:
                 self._needs_opt = True
 
+            self._simplified_command_array = np.empty([0, 3], dtype=int)
             self.command_array = command_array
         else:
             raise TypeError("equation is not in a valid format")
